@@ -434,6 +434,10 @@ impl<'a> WireCtx<'a> {
                     let total: usize = lay.iter().map(|f| f.1).sum();
                     let kind = if b.len() != total { "accepts-wrong-length" } else { "accepts-invalid-element" };
                     self.report(decoder, kind, format!("decoder accepted {} bytes (fixed length {}); specification rejects", b.len(), total), b, info.clone());
+                    if re != b && b.len() == total {
+                        // C10 as well: an accepted string that re-encodes differently (a second encoding)
+                        self.report(decoder, "non-canonical", "accepted input does not re-encode to itself".into(), b, info.clone());
+                    }
                 } else if re != b {
                     self.report(decoder, "non-canonical", "accepted input does not re-encode to itself".into(), b, info.clone());
                 }
